@@ -64,6 +64,7 @@ type FS struct {
 	mutating int // count of mutating operations (C18)
 	open     map[*simFile]bool
 	Quiet    bool // no recording (post-run verification reopen)
+	NoData   bool // record writes without their payload
 }
 
 //go:norace
@@ -287,7 +288,10 @@ func (f *simFile) WriteAt(p []byte, off int64) (int, error) {
 		}
 	}
 	n, err := f.f.WriteAt(p, off)
-	op := FileOp{Kind: "WRITE", File: f.name, Off: off, Data: append([]byte{}, p[:n]...), Len: n}
+	op := FileOp{Kind: "WRITE", File: f.name, Off: off, Len: n}
+	if !fs.NoData {
+		op.Data = append([]byte{}, p[:n]...)
+	}
 	if err != nil {
 		op.Err = err.Error()
 	}
